@@ -111,3 +111,59 @@ def run_parallel(R, tu, rule, jobs=12):
         else:
             R.ob(rule, "%s: the calendar's answer for every business day of every month of the 21 class years" % f, True)
     return n
+
+
+def run_history(R, tu, rule):
+    """the same question must get the same answer whatever was asked before in the run: the month lengths in business days, the
+    converters and the adder are folded for one year of each (weekday of 1 January, leap) kind -- months that begin on the same
+    weekday but differ in length among them -- once each with nothing remembered, then all in a row (forwards and backwards)
+    with whatever the routines keep in static storage carried along"""
+    kinds = {}
+    for y in range(1917, 1917 + 60):
+        kinds.setdefault((datetime.date(y, 1, 1).isoweekday(), y % 4 == 0), y)
+    years = sorted(kinds.values())
+    P0 = {"ab": 0, "ref": 0}
+    qs = []
+    for y in years:
+        for m in range(1, 13):
+            qs.append(("__get_bdays", (y, m)))
+        nb = len(_bdays(y, 2))
+        for bd in (15, nb):
+            biz = {"y": y, "m": 2, "bd": bd}
+            qs.append(("__bizda_add_b", (biz, 10)))
+            qs.append(("__bizda_to_ymd", (biz,)))
+            qs.append(("__bizda_get_yday", (biz, P0)))
+    tabs = {}
+    for f in {q[0] for q in qs}:
+        if tu.func(f) is None or getattr(tu.func(f), "body", None) is None:
+            raise AnalysisBroken("%s: %s vanished" % (rule, f))
+
+    def ask(q, st):
+        fo = fold.Folder(tu.func(q[0]), calls={}, inline=True, max_steps=400000)
+        fo._tabs = tabs
+        fo.statics = st
+        try:
+            r = fo.run([dict(a) if isinstance(a, dict) else a for a in q[1]])
+        except fold.Abort as e:
+            return "abort: %s" % e
+        return tuple(sorted(r.items())) if isinstance(r, dict) else r
+    try:
+        alone = [ask(q, {}) for q in qs]
+        bad = []
+        for order in (range(len(qs)), range(len(qs) - 1, -1, -1)):
+            st = {}
+            for i in order:
+                got = ask(qs[i], st)
+                if got != alone[i]:
+                    bad.append((qs[i], got, alone[i]))
+    except NotConst as e:
+        raise AnalysisBroken("%s: a business-day routine left the foldable fragment (%s)" % (rule, e))
+    if bad:
+        q, got, exp = bad[0]
+        R.finding(rule, tu.func(q[0]), "%s asked in a row" % q[0], "%d of %d questions get another answer after other questions of the same run than "
+                  "alone; first: %s%s gives %s alone and %s in the row: what the routine keeps between calls is keyed too coarsely" % (
+                      len(bad), 2 * len(qs), q[0], q[1], exp, got))
+    else:
+        R.ob(rule, "month lengths in business days, converters and adder: %d questions over %d kinds of year get the same answers in a row "
+             "(forwards and backwards, static storage carried along) as alone" % (len(qs), len(years)), True)
+    return 3 * len(qs)
